@@ -1,3 +1,4 @@
+import Firebolt.Properties.TransBase
 import Firebolt.Model.MainLoop
 import Firebolt.Generated.Skeleton
 import Firebolt.Expected.Skeleton
@@ -97,6 +98,36 @@ theorem source_mrShutdown : GeneratedSrc.mrShutdown = ExpectedSrc.mrShutdown := 
 
 /-! ### influence closure: the pinned functions, and every function of the repository that writes a struct field or package
 variable they read, are unchanged (digests regenerated from /repo on every run; a difference names the functions) -/
+/-! ### The code itself, translated (`Generated/Trans.lean`, rewritten from /repo on every run by extractor/translate.go)
+
+The `translated_*` theorems are about MiniGo terms the translator produced from the current Go source: for every
+environment the translated fragment does what the hand-written model function says.  They are semantic obligations —
+a rewrite that preserves the behaviour keeps them provable, a changed comparison, bound or argument does not. -/
+section Translated
+open Firebolt.MiniGo Firebolt.TransBase
+
+/-- the end of Execute, translated (everything after the main loop has seen the source channel closed): every root's input
+is closed, the wait for the workers is bounded by the configured `shutdowntimeout` seconds, workers are stopped by force
+exactly when that wait timed out, and in both cases Execute goes on: the message sender is shut down and the function
+returns -/
+theorem translated_executeTail (σ : Env) :
+    obs Trans.exExecuteTail σ =
+      ⟨[("foreach e.rootNodes: close", [σ "rootNode.Ch"]),
+        ("waitTimeout", [σ "&e.wg", wrap64 (σ "e.config.ShutdownTimeOut" * σ "time.Second")])] ++
+        (if σ "waitTimeout#0" ≠ 0 then [("foreach e.rootNodes: e.stopWorkers", [σ "rootNode"])] else []) ++
+        [("message.ShutdownKafkaSender", [])], none, false⟩ := by
+  by_cases h : σ "waitTimeout#0" = 0 <;> minigo_simp [Trans.exExecuteTail, h]
+
+/-- waitTimeout, translated: a goroutine waits for the WaitGroup and closes `c`; the timer is armed with the timeout handed
+in; the result is `false` exactly when `c` fires first and `true` exactly when the timer does — nothing else is waited for -/
+theorem translated_waitTimeout (σ : Env) (hs : σ "select#0" = 0 ∨ σ "select#0" = 1) :
+    let r := run Trans.exWaitTimeout σ
+    r.stuck = false ∧ r.ret = some [σ "select#0"] ∧
+    r.calls = [("make", [σ "chan struct{}"]), ("go func() { defer close(c) wg.Wait() }", []),
+               ("time.After", [σ "timeout"]), ("select", [σ "make#0", σ "time.After#0"])] := by
+  rcases hs with h | h <;> minigo_simp [Trans.exWaitTimeout, h]
+end Translated
+
 theorem closure_unchanged : GeneratedClo.C17 = ExpectedClo.C17 := by rfl
 
 end Firebolt.C17
